@@ -44,3 +44,26 @@ Definition csv_bare_char (sep c : N) : bool :=
 Inductive csv_field_denotes (sep : N) : str -> str -> Prop :=
 | csv_fd_bare f : forallb (csv_bare_char sep) f = true -> csv_field_denotes sep f f
 | csv_fd_quoted body v : csv_quoted_body body v -> csv_field_denotes sep (34 :: body ++ [34]) v.
+
+(* ---- the domain on which encoding/csv round-trips rows ---- *)
+(* no CR immediately followed by LF inside a field (the library's reader
+   rewrites CR LF to LF even inside quotes) *)
+Fixpoint crlf_free (f : str) : bool :=
+  match f with
+  | [] => true
+  | c :: r => negb ((c =? 13) && match r with d :: _ => d =? 10 | [] => false end) && crlf_free r
+  end.
+
+(* a record has at least one field and is not a single empty field (that is
+   written as a blank line, which is no record) *)
+Definition csv_row_ok (r : list str) : Prop :=
+  r <> [] /\ r <> [[]] /\ Forall (fun f => crlf_free f = true) r.
+
+Fixpoint same_length (n : nat) (rows : list (list str)) : bool :=
+  match rows with
+  | [] => true
+  | r :: rest => Nat.eqb (length r) n && same_length n rest
+  end.
+
+Definition rectangular (rows : list (list str)) : Prop :=
+  match rows with [] => True | r :: _ => same_length (length r) rows = true end.
